@@ -765,3 +765,136 @@ def shrink(c):
 ANCHORS = [('swh/model/model.py', 'Timestamp.*'),
            ('swh/model/model.py', 'TimestampWithTimezone.*'),
            ('swh/model/git_objects.py', 'format_date')]
+
+
+# the case stream is ordered by kind (the first 25 cases are all offset grids): coq_cases gets every case and keeps
+# a few of each kind (it shrinks the list it is given IN PLACE, so that the evidence's `n` is the number evaluated)
+COQ_SAMPLE = 1 << 30
+COQ_PER_KIND = 8
+
+
+def coq_cases(cases):
+    """every entry point of model/Time.v the driver serves (mk_timestamp, format_date, parse_date, from_numeric_offset incl.
+    two offset grids, from_dict in all its forms, from_iso8601_parsed, parse_offset_bytes, offset_minutes, author_date_part,
+    to_datetime) evaluated by vm_compute inside Coq vs the extracted driver (extraction cross-check).  The Coq terms are
+    built from the very request lines the driver receives."""
+    from . import core
+    by_kind = {}
+    for c in cases:
+        by_kind.setdefault(c["k"], []).append(c)
+    chosen = []
+    for k in sorted(by_kind):
+        l = by_kind[k]
+        if k == "grid":
+            sel = [l[0]] + [c for c in l if c["lo"] < -32768][:1]
+        else:
+            step = max(1, len(l) // COQ_PER_KIND)
+            sel = l[::step][:COQ_PER_KIND]
+        for c in sel:
+            rq = requests(c)
+            if rq and rq[0] not in {r for _, r in chosen}:
+                chosen.append((c, rq[0]))
+    cases[:] = [c for c, _ in chosen]
+    reqs = [rq for _, rq in chosen]
+
+    def z(s):
+        return "(%d)%%Z" % int(s)
+    def pyv(s):
+        return "(VBool true)" if s == "bT" else "(VBool false)" if s == "bF" else "VOther" if s == "o" else "(VInt %s)" % z(s[1:])
+    def opv(s):
+        return "None" if s == "absent" else "(Some %s)" % pyv(s)
+    def tsr(s):
+        p = s.split(":")
+        if p[0] == "missing":
+            return "None"
+        if p[0] == "other":
+            return "(Some TsOther)"
+        if p[0] == "int":
+            return "(Some (TsInt %s))" % pyv(p[1])
+        return "(Some (TsDict %s %s))" % (opv(p[1]), opv(p[2]))
+    def nl(h):
+        return "[" + "; ".join("%d" % b for b in core.unhx(h)) + "]%N"
+    def flag(s):
+        return "true" if s == "T" else "false"
+    def term(rq):
+        w = rq.split(" ")
+        k = w[0]
+        if k == "ts":
+            return "ts_case %s %s" % (pyv(w[1]), pyv(w[2]))
+        if k == "num":
+            return "num_case %s %s %s %s" % (pyv(w[1]), pyv(w[2]), z(w[3]), flag(w[4]))
+        if k == "grid":
+            return "grid_case %s %d%%positive" % (z(w[1]), int(w[2]))
+        if k == "dnew":
+            return "show (from_dict (TRDictNew %s %s))" % (tsr(w[1]), "None" if w[2] == "nonbytes" else "(Some %s)" % nl(w[2]))
+        if k == "dold":
+            return "show (from_dict (TRDictOld %s %s %s))" % (tsr(w[1]), "None" if w[2] == "absent" else "(Some %s)" % z(w[2]),
+                                                              "None" if w[3] == "absent" else "(Some %s)" % flag(w[3]))
+        if k == "dt":
+            return "show (from_dict (TRDatetime {| epoch_us := %s; off_s := %s |}))" % (z(w[1]), z(w[2]))
+        if k == "naive":
+            return "show (from_dict TRNaive)"
+        if k == "int":
+            return "show (from_dict (TRInt %s))" % pyv(w[1])
+        if k == "other":
+            return "show (from_dict TROther)"
+        if k == "iso":
+            return "show (from_iso8601_parsed {| epoch_us := %s; off_s := %s |} %s)" % (z(w[1]), z(w[2]), flag(w[3]))
+        if k == "pob":
+            return "rz (parse_offset_bytes %s)" % nl(w[1])
+        raise ValueError(rq)
+    src = ("From Coq Require Import List NArith ZArith.\nFrom SWH.lib Require Import Bytes.\nFrom SWH.model Require Import Time.\n"
+           "Import ListNotations.\n" + core.COQ_CHECKSUM + """
+Definition zz (x : Z) : list N := [if (x <? 0)%Z then 1%N else 0%N; Z.abs_N x].
+Definition en (e : err) : N := match e with ETimestampOverflow => 1 | EAttributeType => 2 | EValue => 3 | EAssertion => 4
+  | EKey => 5 | EOverflow => 6 | EUnmodelled => 7 end%N.
+Definition rz (r : result Z) : list N := match r with Ok x => 20%N :: zz x | Err e => [en e] end.
+Definition rtd (r : result adt) : list N := match r with Ok d => 21%N :: zz (epoch_us d) ++ zz (off_s d) | Err e => [en e] end.
+Definition show (r : result tstz) : list N := match r with
+  | Err e => [en e]
+  | Ok x => [30%N] ++ zz (seconds (ts x)) ++ zz (microseconds (ts x)) ++ offset_bytes x ++ [300%N] ++ rz (offset_minutes x)
+            ++ format_date (ts x) ++ [301%N] ++ author_date_part x ++ [302%N] ++ rtd (to_datetime x) end.
+Definition short (r : result tstz) : list N := match r with Err e => [en e] | Ok x => offset_bytes x ++ [300%N] ++ rz (offset_minutes x) end.
+Definition ts_case (s us : pyval) : list N := match mk_timestamp s us with
+  | Err e => [en e]
+  | Ok t => [31%N] ++ zz (seconds t) ++ zz (microseconds t) ++ format_date t ++ [303%N]
+            ++ match parse_date (format_date t) with Some (a, b) => zz a ++ zz b | None => [9%N] end end.
+Definition num_case (s us : pyval) (off : Z) (neg : bool) : list N := match mk_timestamp s us with
+  | Err e => [en e] | Ok t => show (from_numeric_offset t off neg) end.
+Definition grid_case (lo : Z) (n : positive) : list N :=
+  let t := {| seconds := 0%Z; microseconds := 0%Z |} in
+  concat (map (fun off => short (from_numeric_offset t off false) ++ [304%N] ++ short (from_numeric_offset t off true) ++ [304%N])
+              (z_range lo n)).
+""" + "Definition cases : list (list N) := [" + ";\n ".join(term(rq) for rq in reqs) + "].\nEval vm_compute in map cksum cases.\n")
+    ERRN = {"TimestampOverflow": 1, "AttributeType": 2, "Value": 3, "Assertion": 4, "Key": 5, "Overflow": 6, "Unmodelled": 7}
+    def zz(n):
+        n = int(n)
+        return [1 if n < 0 else 0, abs(n)]
+    def rz(s):
+        return [ERRN[s[1:]]] if s.startswith("!") else [20] + zz(s)
+    def short(e):
+        if ":" not in e:
+            return [ERRN[e]]
+        ob, om = e.split(":")
+        return list(core.unhx(ob)) + [300] + rz(om)
+    def answer(rq, r):
+        k = rq.split(" ")[0]
+        w = r.split(" ")
+        if w[0] == "err":
+            return [ERRN[w[1]]]          # KeyError on an answer that is not in the protocol: reported as a crash
+        if k == "grid":
+            out = []
+            for e in w[1].split(","):
+                out += short(e) + [304]
+            return out
+        if k == "ts":
+            return [31] + zz(w[1]) + zz(w[2]) + list(core.unhx(w[3])) + [303] + \
+                ([9] if w[4] == "unparsed" else zz(w[4].split(",")[0]) + zz(w[4].split(",")[1]))
+        if k == "pob":
+            return [20] + zz(w[1])
+        td = [ERRN[w[7][1:]]] if w[7].startswith("!") else [21] + zz(w[7].split(",")[0]) + zz(w[7].split(",")[1])
+        return [30] + zz(w[1]) + zz(w[2]) + list(core.unhx(w[3])) + [300] + rz(w[4]) + list(core.unhx(w[5])) + [301] + \
+            list(core.unhx(w[6])) + [302] + td
+    resp = core.run_driver(ID, reqs)
+    exp = [core.py_cksum(answer(rq, r)) for rq, r in zip(reqs, resp)]
+    return src, exp
